@@ -90,7 +90,14 @@ service Svc {
 	fixedMember := `namespace go fixed.member
 struct S { 1: i32 init_default, 2: i32 other }
 `
+	// New<X> is reserved for the constructor of X: "struct NewX" before "struct X" makes the
+	// MustReserve of X's constructor fail (thriftgo exits 2); the model must say so too
+	reserveFail := `namespace go reserve.failure
+struct NewX { 1: i32 a }
+struct X { 1: i32 b }
+`
 	return []Prog{
+		{Name: "corpus-reserve-failure", Files: map[string]string{"rf.thrift": reserveFail}, Main: "rf.thrift"},
 		{Name: "corpus-builtin-member-names", Files: map[string]string{"bm.thrift": builtinMembers}, Main: "bm.thrift"},
 		{Name: "corpus-field-init-default", Files: map[string]string{"fm.thrift": fixedMember}, Main: "fm.thrift"},
 		{Name: "corpus-leading-underscore", Files: map[string]string{"ub.thrift": underB, "ua.thrift": underA}, Main: "ub.thrift"},
